@@ -45,6 +45,18 @@ CLAIMED = {
             'oracle self-test gate reproduces literals pinned by upstream tests before any case runs; values on an exactly '
             'representable grid; documented zero-denominator/NaN conventions; open finding F-C07-topk-truncation is steered around and reported.',
             '§3 C07'),
+    'C01': ('exploration',
+            'Hypothesis-generated datasets and shard/batch compositions; metamorphic oracle merged-shards == one whole-dataset batch, plus per-example independence',
+            'For each of 23 registry entries a dataset (NaN entries, ragged rankings, 1-D/2-D) is cut into 1..4 shards (empty shards '
+            'allowed) and each shard into batches of unequal size; the result of merging the shard accumulators (metric API: add/merge, '
+            'aggregate API: update_state/merge_states, optionally starting from a fresh accumulator) must equal the single whole-batch '
+            'accumulator under the entry comparator (float tolerance, exact concatenation for order-carrying accumulators, '
+            'size/membership/reviewed-count for the reservoir sampler); for metrics returning per-example values every row must get '
+            'the value it gets in a singleton batch. A metamorphic relation over generated compositions is exactly what the property '
+            'states; exploration is the right level.',
+            'explicit vocab for classification metrics, explicit range/edges for Histogram, equal seeds for samplers, non-negative '
+            'input for MinMaxAndCount (documented preconditions); open finding F-C01-topk-truncation is steered around and reported.',
+            '§3 C01'),
 }
 
 PENDING_REASON = 'check not built yet in this session (work in progress; see DESIGN.md §9 build order) - not claimed until its check exists'
